@@ -37,6 +37,10 @@ family!(p19, "C19", 4, 5, "for every split of the history into a prefix (whose m
 pub mod c20;
 pub mod c21;
 pub mod c22;
+pub mod c23;
+pub mod c24 {
+    pub use super::c23::{replay24 as replay, run24 as run};
+}
 pub mod c25;
 pub mod c26;
 pub mod c27;
@@ -87,6 +91,8 @@ pub fn dispatch(ctx: &Ctx, replay: Option<&str>) -> i32 {
         "C20" => c20,
         "C21" => c21,
         "C22" => c22,
+        "C23" => c23,
+        "C24" => c24,
         "C25" => c25,
         "C26" => c26,
         "C27" => c27,
